@@ -30,6 +30,8 @@ func VerifH06n() {
 	o, err := NewFunctionOperator(&parser.Call{Func: parser.Functions[name]}, call, nil, 2, opts)
 	sym.Assert("C06/noarg/new", err == nil)
 	ctx := context.Background()
+	series, err := o.Series(ctx)
+	sym.Assert("C18/noarg/series", err == nil)
 	i := 0
 	lenMismatch := false
 	for {
@@ -53,6 +55,10 @@ func VerifH06n() {
 			}
 			if len(sv.SampleIDs) != len(sv.Samples) {
 				lenMismatch = true
+			}
+			for _, id := range sv.SampleIDs {
+				sym.Known("KF-C06-D27", true)
+				sym.Assert("C18/noarg/id-indexes-series-list", int(id) < len(series))
 			}
 			i++
 		}
